@@ -5,8 +5,9 @@ import N0Verif.Model.XPath
 
   The model follows the code with the repairs `fixes/C19-a.patch` (leading index on a list root),
   `fixes/C19-b.patch` (`'..'` looks its target up by xpath and no longer deletes from the
-  stack) and `fixes/C19-c.patch` (a `text()` condition is no longer appended to the found xpath)
-  applied.
+  stack), `fixes/C19-c.patch` (a `text()` condition is no longer appended to the found xpath),
+  `fixes/C19-d.patch` (a name / index step on a final element is a miss, not `KeyError("Internal
+  error")`) and `fixes/C19-e.patch` (`findall` hands `raise_exception` on to `_findall`) applied.
 
   `_findall` has **two mutable default arguments** (`found_xpath_list = []`,
   `parent_nodes_stack = {}`) and updates the list object it received *in place*
@@ -250,7 +251,7 @@ def stepIdx (node : Val) (rest : List Str) (i : Int) (fl : FL) (ps : PS) : Out :
   | .dict .. =>
     -- `if child_index:` … `if not child_name:`
     if i ≠ 0 then ⟨raiseOr re .IndexError, fl, ps⟩ else ⟨raiseOr re .KeyError, fl, ps⟩
-  | _ => ⟨.error .KeyError, fl, ps⟩
+  | _ => ⟨.ok Option.none, fl, ps⟩                   -- (fix C19-d) nothing below a final element: a miss
 
 /-- `[*]` -/
 def stepStar (node : Val) (rest : List Str) (fl : FL) (ps : PS) : Out :=
@@ -263,7 +264,7 @@ def stepStar (node : Val) (rest : List Str) (fl : FL) (ps : PS) : Out :=
     let r := starLoop (fun c cur1 => rec c rest cur1 (push ps cur1 node)) re last 0 xs cur []
     ⟨r.1, if fl.isEmpty then fl else r.2, ps⟩
   | .dict .. => ⟨raiseOr re .IndexError, fl, ps⟩
-  | _ => ⟨.error .KeyError, fl, ps⟩
+  | _ => ⟨.ok Option.none, fl, ps⟩                   -- (fix C19-d)
 
 /-- a name -/
 def stepName (node : Val) (tok : Str) (rest : List Str) (fl : FL) (ps : PS) : Out :=
@@ -286,7 +287,7 @@ def stepName (node : Val) (tok : Str) (rest : List Str) (fl : FL) (ps : PS) : Ou
         let o := rec c rest (fl ++ [tok]) (push ps fl node)
         ⟨o.res, fl, ps⟩
       | Option.none => ⟨.ok Option.none, fl, ps⟩
-  | _ => ⟨.error .KeyError, fl, ps⟩
+  | _ => ⟨.ok Option.none, fl, ps⟩                   -- (fix C19-d) a name below a final element: a miss
 
 /-- body of `_findall` -/
 def step (node : Val) (toks : List Str) (fl : FL) (ps : PS) : Out :=
@@ -317,18 +318,20 @@ abbrev Defaults := FL × PS
 /-- the state of a freshly imported module -/
 def fresh : Defaults := ([], [])
 
-/-- `findall(current_node, seeked_xpath_str)`: `_findall` is called with two arguments, so it
-works on the default objects (and `raise_exception` keeps its default `True` whatever the caller
-passed).  Returns the result and the contents of the defaults after the call. -/
-def findallTop (fuel : Nat) (st : Defaults) (t : Val) (expr : Str) : Out :=
-  fa true fuel t (tokens expr) st.1 st.2
+/-- `findall(current_node, seeked_xpath_str, raise_exception=True)`: `_findall` is called with the
+node, the token list and (fix C19-e) `raise_exception=raise_exception`, so it works on the default
+list / dict objects.  Returns the result and the contents of the defaults after the call. -/
+def findallTop (fuel : Nat) (st : Defaults) (t : Val) (expr : Str) (re : Bool := true) : Out :=
+  fa re fuel t (tokens expr) st.1 st.2
 
 def Out.state (o : Out) : Defaults := (o.fl, o.ps)
 
-/-- `findfirst(current_node, seeked_xpath_str, raise_exception)`; `none` = `(None, None)` -/
+/-- `findfirst(current_node, seeked_xpath_str, raise_exception)`; `none` = `(None, None)`.
+`found = findall(current_node, seeked_xpath_str, False)`: since C19-e the search itself runs with
+`raise_exception=False` whatever `findfirst` was given -/
 def findfirstTop (fuel : Nat) (st : Defaults) (t : Val) (expr : Str) (re : Bool) :
     PyM (Option (Str × Val)) × Defaults :=
-  let o := findallTop fuel st t expr
+  let o := findallTop fuel st t expr false
   match o.res with
   | .error e => (.error e, o.state)
   | .ok f =>
@@ -343,6 +346,14 @@ def runHist (fuel : Nat) : Defaults → List (Val × Str) → List (PyM (Option 
   | st, (t, e) :: rest =>
     let o := findallTop fuel st t e
     let r := runHist fuel o.state rest
+    (o.res :: r.1, r.2)
+
+/-- the same with the mode of every search (`findall(xpath, raise_exception)`) -/
+def runHistM (fuel : Nat) : Defaults → List (Val × Str × Bool) → List (PyM (Option Found)) × Defaults
+  | st, [] => ([], st)
+  | st, (t, e, re) :: rest =>
+    let o := findallTop fuel st t e re
+    let r := runHistM fuel o.state rest
     (o.res :: r.1, r.2)
 
 /-- keys the model treats literally: an `n0dict` resolves a key containing `/` or `[` (or starting
